@@ -45,6 +45,7 @@ extern int hm_overflow;                    /* a message exceeded HMAX (model cap
 extern unsigned char hm_last_msg[HMAX];
 extern size_t hm_last_len;
 extern unsigned hm_nfinal;
+size_t hm_ctx_len(const void *ctx);   /* acc model: bytes absorbed so far by a running context */
 
 /* ---- padalloc.c ------------------------------------------------------------------------- */
 extern size_t pa_lsize[1024]; extern unsigned char pa_managed[1024]; extern int pa_over; extern unsigned pa_nrealloc;
